@@ -887,4 +887,71 @@ pub mod hb_gc {
 #[allow(unused_imports, dead_code, missing_docs)]
 pub mod verif_hooks {
     use super::*;
+
+    /// Hangul constants, in the order S_BASE L_BASE V_BASE T_BASE L_COUNT V_COUNT T_COUNT N_COUNT S_COUNT.
+    pub fn hangul_constants() -> [u32; 9] {
+        [
+            S_BASE, L_BASE, V_BASE, T_BASE, L_COUNT, V_COUNT, T_COUNT, N_COUNT, S_COUNT,
+        ]
+    }
+
+    /// Rows of `unicode_norm::DECOMPOSITION_TABLE` as (ab, a, b) with b = 0 for a singleton.
+    pub fn decomposition_table() -> alloc::vec::Vec<(u32, u32, u32)> {
+        crate::hb::unicode_norm::DECOMPOSITION_TABLE
+            .iter()
+            .map(|r| (r.0 as u32, r.1 as u32, r.2.map_or(0, |c| c as u32)))
+            .collect()
+    }
+
+    /// Rows of `unicode_norm::COMPOSITION_TABLE` as (key, ab), key = a << 32 | b.
+    pub fn composition_table() -> alloc::vec::Vec<(u64, u32)> {
+        crate::hb::unicode_norm::COMPOSITION_TABLE
+            .iter()
+            .map(|r| (r.0, r.1 as u32))
+            .collect()
+    }
+
+    pub fn compose(a: char, b: char) -> Option<char> {
+        super::compose(a, b)
+    }
+
+    pub fn decompose(ab: char) -> Option<(char, char)> {
+        super::decompose(ab)
+    }
+
+    pub fn modified_combining_class(c: char) -> u8 {
+        c.modified_combining_class()
+    }
+
+    pub fn modified_combining_class_table() -> [u8; 256] {
+        *MODIFIED_COMBINING_CLASS
+    }
+
+    pub fn canonical_combining_class(c: char) -> u8 {
+        unicode_ccc::get_canonical_combining_class(c) as u8
+    }
+
+    pub fn is_mark(c: char) -> bool {
+        c.general_category().is_mark()
+    }
+
+    pub fn general_category_rb(c: char) -> u32 {
+        c.general_category().to_rb()
+    }
+
+    pub fn is_space_separator(c: char) -> bool {
+        c.general_category() == hb_unicode_general_category_t::SpaceSeparator
+    }
+
+    pub fn is_default_ignorable(c: char) -> bool {
+        c.is_default_ignorable()
+    }
+
+    pub fn is_variation_selector(c: char) -> bool {
+        c.is_variation_selector()
+    }
+
+    pub fn space_fallback(c: char) -> u8 {
+        c.space_fallback()
+    }
 }
